@@ -220,6 +220,10 @@ func c01Gen(runSeed uint64, tier string) *gen.Scenario {
 	if g.Chance(0.35) {
 		sc.Knobs["faults"] = int64(simstore.FaultOpenErr | simstore.FaultIterErr)
 	}
+	if g.Chance(0.1) {
+		// directed shape: same relation names with different depths on several layered types
+		sc.Model, sc.Tuples, sc.Requests = g.LayeredSameName()
+	}
 	return sc
 }
 
